@@ -277,30 +277,35 @@ def run(tier, seed, escalate=False):
         from dnplab.processing.conversion import dBm2w, w2dBm, convert_power
         levels = [-100, -63, -30, -10, -3, 0, 1, 7, 10, 20, 33, 45, 60]
         conts = {"scalar-int": lambda v: v[3], "scalar-float": lambda v: float(v[4]) + 0.5, "list": lambda v: list(v),
-                 "list-float": lambda v: [x + 0.25 for x in v], "int-array": lambda v: np.array(v, dtype=int),
+                 "list-float": lambda v: [x + 0.25 for x in v], "int-array": lambda v: np.array(v, dtype=int), "int32-array": lambda v: np.array(v, dtype=np.int32), "int16-array": lambda v: np.array(v, dtype=np.int16),
+                 "int8-array": lambda v: np.array([x for x in v if -100 <= x <= 100], dtype=np.int8),
                  "float-array": lambda v: np.array(v, dtype=float) + 0.5}
         for name, mk in conts.items():
-            x = mk(levels)
-            n_eval += 1
-            w = dBm2w(x)
-            xf = np.asarray(x, dtype=float)
-            want = 10.0 ** (xf / 10.0) / 1000.0
-            if not np.allclose(np.asarray(w, dtype=float), want, rtol=1e-12, atol=0):
-                key = "C16:dBm2w-closed-form:" + name
-                fails.append({"key": key, "clause": key, "ops": [{"container": name, "got": np.asarray(w).tolist()[:4]}]})
-            back = w2dBm(w)
-            if not np.allclose(np.asarray(back, dtype=float), xf, rtol=1e-9, atol=1e-9):
-                key = "C16:dBm-roundtrip:" + name
-                fails.append({"key": key, "clause": key, "ops": [{"container": name}]})
-            wi = mk([1, 2, 5, 10, 20, 50, 100, 200, 500, 1000, 2000, 3000, 4000])
-            d2 = w2dBm(wi)
-            wf = np.asarray(wi, dtype=float)
-            if not np.allclose(np.asarray(d2, dtype=float), 10 * np.log10(1000 * wf), rtol=1e-12):
-                key = "C16:w2dBm-closed-form:" + name
-                fails.append({"key": key, "clause": key, "ops": [{"container": name}]})
-            if not np.allclose(np.asarray(dBm2w(d2), dtype=float), wf, rtol=1e-9):
-                key = "C16:W-roundtrip:" + name
-                fails.append({"key": key, "clause": key, "ops": [{"container": name}]})
+            try:
+                x = mk(levels)
+                n_eval += 1
+                w = dBm2w(x)
+                xf = np.asarray(x, dtype=float)
+                want = 10.0 ** (xf / 10.0) / 1000.0
+                if not np.allclose(np.asarray(w, dtype=float), want, rtol=1e-12, atol=0):
+                    key = "C16:dBm2w-closed-form:" + name
+                    fails.append({"key": key, "clause": key, "ops": [{"container": name, "got": np.asarray(w).tolist()[:4]}]})
+                back = w2dBm(w)
+                if not np.allclose(np.asarray(back, dtype=float), xf, rtol=1e-9, atol=1e-9):
+                    key = "C16:dBm-roundtrip:" + name
+                    fails.append({"key": key, "clause": key, "ops": [{"container": name}]})
+                wi = mk([1, 2, 5, 10, 20, 50, 100, 200, 500, 1000, 2000, 3000, 4000])
+                d2 = w2dBm(wi)
+                wf = np.asarray(wi, dtype=float)
+                if not np.allclose(np.asarray(d2, dtype=float), 10 * np.log10(1000 * wf), rtol=1e-12):
+                    key = "C16:w2dBm-closed-form:" + name
+                    fails.append({"key": key, "clause": key, "ops": [{"container": name}]})
+                if not np.allclose(np.asarray(dBm2w(d2), dtype=float), wf, rtol=1e-9):
+                    key = "C16:W-roundtrip:" + name
+                    fails.append({"key": key, "clause": key, "ops": [{"container": name}]})
+            except Exception as e:  # noqa: BLE001
+                key = "C16:conversion-raises:%s" % name
+                fails.append({"key": key, "clause": key, "ops": [{"container": name, "error": type(e).__name__}]})
         for dt in (int, float):
             d = dnp.DNPData(np.arange(len(levels) * 2.0).reshape(len(levels), 2), ["Power", "x"], [np.array(levels, dtype=dt), np.arange(2.0)])
             n_eval += 1
